@@ -3,8 +3,11 @@ package main
 // C10 — context hooks and lazy generators run exactly once iff the event is emitted.
 
 import (
+	"bytes"
 	"context"
 	"fmt"
+	"os"
+	"path/filepath"
 	"strings"
 	"time"
 
@@ -369,7 +372,9 @@ func c10Worker(w *W) {
 	}
 	ranges := []string{"", "INFO", "WARN~FATAL", "TRACE~DEBUG", "DEBUG", "ERROR~ERROR", "NONE~TRACE", "PANIC", "DEBUG~PANIC", "NOTICE~L998"}
 	k := 0
-	for _, kind := range []string{"Logger", "AsyncLogger"} {
+	rdir := filepath.Join(w.Spec.Dir, w.Spec.Name+".roll")
+	defer os.RemoveAll(rdir)
+	for _, kind := range []string{"Logger", "AsyncLogger", "RollingFile"} {
 		for _, caller := range []string{"true", "false"} {
 			for _, fast := range []string{"false", "true"} {
 				for _, rs := range ranges {
@@ -384,6 +389,15 @@ func c10Worker(w *W) {
 					if kind == "AsyncLogger" {
 						cfg["logger.lg.bufferFullPolicy"] = "Block"
 					}
+					if kind == "RollingFile" {
+						if fast == "true" || k%3 != 0 {
+							continue // a third of the ranges, default lookup mode only: keeps the file traffic small
+						}
+						_ = os.RemoveAll(rdir)
+						_ = os.MkdirAll(rdir, 0755)
+						delete(cfg, "logger.lg.appenderRef.ref")
+						cfg["logger.lg.fileDir"], cfg["logger.lg.fileName"], cfg["logger.lg.rotation"], cfg["logger.lg.layout.type"] = rdir, "c10.log", "h", "JSONLayout"
+					}
 					if err := log.Refresh(cfg); err != nil {
 						w.Violate("C10:refresh-failed", "Refresh of a plain configuration failed: "+err.Error(), cfg)
 						log.Destroy()
@@ -394,6 +408,16 @@ func c10Worker(w *W) {
 					doCalls(state, lr, stride)
 					log.Destroy()
 					l, t := collect()
+					if kind == "RollingFile" {
+						for _, ln := range bytes.Split(readDirAll(rdir), []byte("\n")) {
+							if id := idOf(ln); id != "" {
+								if _, dup := l[id]; dup {
+									w.Violate("C10:duplicate-record", "one call produced two records for "+id, nil)
+								}
+								l[id] = ln
+							}
+						}
+					}
 					verify(l, t)
 					if rs == "PANIC" || rs == "WARN~FATAL" || rs == "ERROR~ERROR" {
 						// nothing of the destroyed configuration (such as its level range) may linger:
@@ -416,7 +440,7 @@ func c10Worker(w *W) {
 func init() {
 	register(&Prop{
 		ID: "C10", Level: "exploration", MinDistinct: 500, Worker: c10Worker,
-		Rule: "cross product of 24 call forms (14 fixed-level entry points + Record at 10 levels incl. custom and NONE) x 8 subsets of the three hooks set x 5 contexts (Background, TODO, value chain, cancelled, nil) under: the built-in logger before any Refresh and again right after Destroy of a restrictive configuration, and Refresh-built sync and async(Block) loggers x enableCaller on/off x fastCaller on/off x 10 logger level ranges chosen so that every level is enabled in some and disabled in others " +
+		Rule: "cross product of 24 call forms (14 fixed-level entry points + Record at 10 levels incl. custom and NONE) x 8 subsets of the three hooks set x 5 contexts (Background, TODO, value chain, cancelled, nil) under: the built-in logger before any Refresh and again right after Destroy of a restrictive configuration, and Refresh-built sync, async(Block) and rolling-file loggers x enableCaller on/off x fastCaller on/off x 10 logger level ranges chosen so that every level is enabled in some and disabled in others " +
 			"(quick: the cross product under each Refresh is strided, the before-Refresh state is complete). Monitors: counting closures per call (hooks, lazy generator, identity of the context they receive), recording appender / console collector for the emitted record (hook time or [before,after] bracket, context string, context fields ahead of call fields). " +
 			"One further scenario keeps six events in flight in an asynchronous logger (gated appender) while the context-fields hook returns one shared immutable slice with spare capacity: every record must carry the hook's fields followed by its own. Non-trivial/distinct = distinct (state, call form, enabled/disabled, hook subset, context kind) tuples whose counts were right.",
 		Assumptions: []string{"hooks are swapped between calls by the harness while no log call is in progress (single goroutine)", "the wall-clock bracket for unset TimeNow is widened by 1 ms on both sides (monotonic vs wall clock reading)"},
